@@ -284,7 +284,12 @@ class Job:
             tag = '%s_%s' % ('w' if witness else 'm', sv)
             fo = open(os.path.join(self.dir, 'cbmc_%s.out' % tag), 'wb')
             fe = open(os.path.join(self.dir, 'cbmc_%s.err' % tag), 'wb')
-            p = subprocess.Popen(wrapped, cwd=self.dir, stdout=fo, stderr=fe, start_new_session=True)
+            # own temp directory per solver process: CBMC writes the CNF for an external SAT solver (1-3 GB for the bus jobs)
+            # to $TMPDIR and leaves it behind when the process is killed as the loser of the portfolio or at the time limit
+            tmpd = os.path.join(self.dir, 'tmp_' + tag)
+            shutil.rmtree(tmpd, ignore_errors=True)
+            os.makedirs(tmpd, exist_ok=True)
+            p = subprocess.Popen(wrapped, cwd=self.dir, stdout=fo, stderr=fe, start_new_session=True, env=dict(os.environ, TMPDIR=tmpd))
             procs.append((sv, cmd, p, fo, fe, tag))
         winner = None
         results = {}
@@ -321,6 +326,7 @@ class Job:
                 fo.close(); fe.close()
             except Exception:
                 pass
+            shutil.rmtree(os.path.join(self.dir, 'tmp_' + tag), ignore_errors=True)
         if winner is not None:
             return winner
         if results:
